@@ -70,15 +70,35 @@ class MapObj:       # entries: tuple of (key, guard, value); keys concrete (byte
         self.entries = tuple(entries)
 
 
-class ChanObj:      # sequential model: unbounded FIFO
-    __slots__ = ('items', 'closed')
+class ChanObj:      # sequential model: unbounded FIFO; goroutine_park mode: cap 0 = a send completes when its item was received
+    __slots__ = ('items', 'closed', 'cap', 'nsent', 'nrecv')
 
-    def __init__(self, items=(), closed=False):
-        self.items, self.closed = tuple(items), closed
+    def __init__(self, items=(), closed=False, cap=None, nsent=0, nrecv=0):
+        self.items, self.closed, self.cap, self.nsent, self.nrecv = tuple(items), closed, cap, nsent, nrecv
+
+    def push(self, x):
+        return ChanObj(self.items + (x,), self.closed, self.cap, self.nsent + 1, self.nrecv)
+
+    def pop(self):
+        return ChanObj(self.items[1:], self.closed, self.cap, self.nsent, self.nrecv + 1)
+
+    def close(self):
+        return ChanObj(self.items, True, self.cap, self.nsent, self.nrecv)
 
 
 class Blocked(Exception):
     pass
+
+
+class SendParked(Blocked):
+    """an unbuffered send by a goroutine: the item is queued, the goroutine resumes AFTER the send once it was received"""
+
+
+class Park(Exception):
+    """a goroutine blocked in its own top-level frame (goroutine_park mode): carries the continuation"""
+    def __init__(self, cont):
+        Exception.__init__(self, 'park')
+        self.cont = cont
 
 
 class VirtualArr:
@@ -198,6 +218,11 @@ class Engine:
         self.requeue = []
         self.snapshots = {}
         self.goroutines = []
+        self.goroutine_park = False   # True: goroutines are coroutines that park at a blocking channel operation and resume later
+        self.gcur = None
+        self.last_waits = []
+        self.select_order = 0
+        self.uuid_counter = 0
         self.depth_blocked_ok = True
         self.blocked_states = []
         self.regions = {}
@@ -361,12 +386,12 @@ class Engine:
 
     def merge_heapcell(self, c, a, b, t, ha, hb, hn):
         if isinstance(a, ChanObj) and isinstance(b, ChanObj):
-            if a.items is None or b.items is None or len(a.items) != len(b.items) or a.closed != b.closed:
+            if a.items is None or b.items is None or len(a.items) != len(b.items) or a.closed != b.closed or (a.nsent, a.nrecv) != (b.nsent, b.nrecv):
                 p = ChanObj((), False)
                 p.items = None      # poisoned: queues differ between the merged paths; any later use is unsupported
                 return p
             et = self.T(self.under(t)[0]).get('elem') if t else None
-            return ChanObj([self.merge_val(c, x, y, et, ha, hb, hn) for x, y in zip(a.items, b.items)], a.closed)
+            return ChanObj([self.merge_val(c, x, y, et, ha, hb, hn) for x, y in zip(a.items, b.items)], a.closed, a.cap, a.nsent, a.nrecv)
         if isinstance(a, MapObj) and isinstance(b, MapObj):
             return self.merge_mapobj(c, a, b, t, ha, hb, hn)
         if isinstance(t, tuple) and t[0] == 'arr':
@@ -739,7 +764,7 @@ class Engine:
             return None
         return self.zero(t)
 
-    def call(self, st, fname, args, ins=None, bindings=()):
+    def call(self, st, fname, args, ins=None, bindings=(), resume=None):
         if fname in self.redirects:
             self.stats['stubs']['redirect:' + fname] = self.stats['stubs'].get('redirect:' + fname, 0) + 1
             return self.call(st, self.redirects[fname], args, ins)
@@ -748,6 +773,8 @@ class Engine:
             return CUTS[self.cuts[fname]](self, st, args, ins)
         fn = self.funcs.get(fname)
         has_body = fn is not None and not fn.get('external')
+        if fname.startswith('github.com/atomix/go-sdk/pkg/types/scalar.NewEncodeFunc['):
+            return FuncV('verif.identity')      # string-kinded keys encode as themselves
         if fname in INTRINSICS and (not has_body or 'verifrt.' in fname or fname in FORCE_STUB):
             self.stats['stubs'][fname] = self.stats['stubs'].get(fname, 0) + 1
             return INTRINSICS[fname](self, st, args, ins)
@@ -764,6 +791,11 @@ class Engine:
         caller_env, caller_defers = st.env, st.defers
         start = State(st.pc, env, st.heap, ())
         pending = {0: [start]}
+        resume_at = None
+        if resume is not None:
+            start = State(st.pc, dict(resume['env']), st.heap, resume['defers'])
+            pending = {resume['blk']: [start]}
+            resume_at = (resume['blk'], resume['idx'])
         backpend, iters, rets = {}, {}, []
         self.depth += 1
         self.fnstack.append(fname)
@@ -788,7 +820,10 @@ class Engine:
                 if iters[b] > self.unwind:
                     self.obligations.append(('unwind:%s:%d' % (fname, b), cur.pc))
                     continue
-            for out in self.exec_block(cur, fn, blocks[b]):
+            first = 0
+            if resume_at is not None and resume_at[0] == b:
+                first, resume_at = resume_at[1], None
+            for out in self.exec_block(cur, fn, blocks[b], first):
                 if out[0] == 'ret':
                     rets.append((out[1], out[2]))
                     continue
@@ -834,9 +869,11 @@ class Engine:
             return None
         return acc_v[0] if len(rtypes) == 1 else acc_v
 
-    def exec_block(self, st, fn, blk):
+    def exec_block(self, st, fn, blk, first=0):
         extra = []
-        for ins in blk['instrs']:
+        for ins_i, ins in enumerate(blk['instrs']):
+            if ins_i < first:
+                continue
             op = ins['op']
             self.stats['instrs'] += 1
             if op == 'Phi':
@@ -865,7 +902,20 @@ class Engine:
                 return []
             try:
                 r = self.exec_instr(st, ins)
-            except Blocked:
+            except Park as pk:
+                # a callee of this frame parked: this frame is part of the continuation
+                if op != 'Call':
+                    raise Unsupported('goroutine parks beneath a %s instruction @@ %s' % (op, fn['name']))
+                pk.cont['frames'].append({'fname': fn['name'], 'blk': blk['index'], 'idx': ins_i, 'env': dict(st.env),
+                                          'defers': st.defers, 'name': ins.get('name')})
+                raise
+            except Blocked as _bl:
+                if self.goroutine_park and self.gcur is not None:
+                    if st.pc is not self.gcur['pc0'] and self.feasible(sb(And(self.gcur['pc0'], Not(st.pc)))):
+                        raise Unsupported('goroutine parks under a symbolic condition @@ ' + fn['name'])
+                    raise Park({'kind': 'parked', 'heap': st.heap, 'waits': self.last_waits,
+                                'frames': [{'fname': fn['name'], 'blk': blk['index'], 'idx': ins_i + (1 if isinstance(_bl, SendParked) else 0), 'env': dict(st.env),
+                                            'defers': st.defers, 'name': None}]})
                 if self.depth_blocked_ok:
                     self.blocked_states.append(State(st.pc, {}, dict(st.heap), ()))
                     st.pc = False
@@ -1110,11 +1160,16 @@ class Engine:
                     if co.items is None:
                         raise Unsupported('use of a channel whose queue differs between merged paths')
                     if co.items:
-                        st.heap[obj] = ChanObj(co.items[1:], co.closed)
+                        st.heap[obj] = co.pop()
                         return (co.items[0], True) if ins['commaok'] else co.items[0]
                     if co.closed:
                         z = self.zero(self.T(ins['type'])['elems'][0]) if ins['commaok'] else self.zero(ins['type'])
                         return (z, False) if ins['commaok'] else z
+                    if self.goroutine_park:
+                        self.last_waits = [obj]
+                        if self.gcur is None and self.run_goroutines(st):
+                            return self.exec_instr(st, ins)
+                        break
                     if attempt == 0 and self.goroutines:
                         # the receiver would block: let the queued goroutines run (sequential model)
                         gs, self.goroutines = self.goroutines, []
@@ -1250,19 +1305,36 @@ class Engine:
                 self.call_value(st, fv, list(args), {'type': None})
             return None
         if op == 'MakeChan':
-            return Ptr(((True, self.new_obj(st, ChanObj(), ins['type']), ()),))
+            size = self.val(st, ins['size']) if ins.get('size') else 0
+            return Ptr(((True, self.new_obj(st, ChanObj(cap=size if isinstance(size, int) else None), ins['type']), ()),))
         if op == 'Send':
             ch = self.val(st, ins['chan'])
             (g, obj, p), = ch.alts
             co = st.heap[obj]
-            st.heap[obj] = ChanObj(co.items + (self.val(st, ins['x']),), co.closed)
+            if self.goroutine_park and co.closed:
+                self.panic(st, True, 'send-on-closed-chan')
+            st.heap[obj] = co.push(self.val(st, ins['x']))
+            if self.goroutine_park and co.cap == 0:
+                # unbuffered: the sender goes on only after a receiver took the item
+                ticket = st.heap[obj].nsent
+                self.last_waits = [('sent', obj, ticket)]
+                if self.gcur is not None:
+                    raise SendParked()
+                while st.heap[obj].nrecv < ticket:
+                    if not self.run_goroutines(st):
+                        raise Blocked()
             return None
         if op == 'Go':
             c = ins['call']
             if 'invoke' in c:
                 raise Unsupported('go invoke')
+            if self.goroutine_park:
+                self.goroutines.append({'kind': 'new', 'fv': self.val(st, c['fn']), 'args': [self.val(st, a) for a in c['args']]})
+                return None
             self.goroutines.append((self.val(st, c['fn']), [self.val(st, a) for a in c['args']]))
             return None
+        if op == 'Select':
+            return self.select(st, ins)
         if op == 'MakeMap':
             return MapV(((True, self.new_obj(st, MapObj(), ins['type'])),))
         if op == 'MakeSlice':
@@ -1437,7 +1509,107 @@ class Engine:
                     ents.append((k, pg, v))
                 st.heap[o] = MapObj(ents)
             return None
+        if name == 'close':
+            (g, obj, p), = args[0].alts
+            if obj is None:
+                self.panic(st, True, 'close-nil-chan')
+                return None
+            co = st.heap[obj]
+            if co.closed:
+                self.panic(st, True, 'close-closed-chan')
+            st.heap[obj] = co.close()
+            return None
         raise Unsupported('builtin ' + name)
+
+    # ------------------------------------------------------------ goroutines as coroutines (goroutine_park mode)
+    def chan_ready(self, st, w):
+        if isinstance(w, tuple):      # ('sent', obj, ticket): an unbuffered send waits for its item to be received
+            co = st.heap.get(w[1])
+            return co is not None and co.nrecv >= w[2]
+        co = st.heap.get(w)
+        return co is not None and (bool(co.items) or co.closed)
+
+    def run_goroutines(self, st):
+        """let every goroutine that can make progress run until it returns or parks; True if anything ran"""
+        progress = False
+        while True:
+            gs, self.goroutines = self.goroutines, []
+            ran = False
+            for g in gs:
+                if g['kind'] == 'parked' and not any(self.chan_ready(st, o) for o in g['waits']):
+                    self.goroutines.append(g)
+                    continue
+                ran = True
+                saved = (self.gcur, self.depth, len(self.fnstack), st.env, st.defers)
+                self.gcur = {'depth': self.depth + 1, 'pc0': st.pc}
+                try:
+                    if g['kind'] == 'new':
+                        self.call_value(st, g['fv'], g['args'], {'type': None})
+                    else:
+                        frames, r = g['frames'], None
+                        for k, fr in enumerate(frames):      # innermost frame first
+                            if k > 0:
+                                if fr['name']:
+                                    fr['env'][fr['name']] = r
+                                fr = dict(fr, idx=fr['idx'] + 1)
+                            try:
+                                r = self.call(st, fr['fname'], [], {'type': None}, resume=fr)
+                            except Park as pk:
+                                pk.cont['frames'].extend(frames[k + 1:])
+                                raise
+                except Park as pk:
+                    st.heap = pk.cont.pop('heap')
+                    self.goroutines.append(pk.cont)
+                    self.depth = saved[1]
+                    del self.fnstack[saved[2]:]
+                    st.env, st.defers = saved[3], saved[4]
+                finally:
+                    self.gcur = saved[0]
+            if not ran:
+                return progress
+            progress = True
+
+    def select(self, st, ins):
+        elems = self.T(ins['type'])['elems']
+        nrecv = [i for i, s in enumerate(ins['states']) if s['dir'] == 2]
+
+        def result(idx, ok, pos=None, item=None):
+            out = [idx, ok]
+            for k, si_ in enumerate(nrecv):
+                out.append(item if si_ == pos else self.zero(elems[2 + k]))
+            return tuple(out)
+        while True:
+            waits = []
+            order = list(enumerate(ins['states']))
+            if self.select_order:
+                order.reverse()      # Go picks any ready case: 0 = first in source order, 1 = last
+            for idx, s in order:
+                ch = self.val(st, s['chan'])
+                (g, obj, p), = ch.alts
+                if obj is None:
+                    continue
+                co = st.heap[obj]
+                if co.items is None:
+                    raise Unsupported('use of a channel whose queue differs between merged paths')
+                if s['dir'] == 1:
+                    if co.closed:
+                        self.panic(st, True, 'send-on-closed-chan')
+                    st.heap[obj] = co.push(self.val(st, s['send']))
+                    return result(idx, False)
+                if co.items:
+                    st.heap[obj] = co.pop()
+                    return result(idx, True, idx, co.items[0])
+                if co.closed:
+                    return result(idx, False)
+                waits.append(obj)
+            if not ins['blocking']:
+                return result(-1, False)
+            if not self.goroutine_park:
+                raise Unsupported('blocking select outside goroutine_park mode')
+            self.last_waits = waits
+            if self.gcur is None and self.run_goroutines(st):
+                continue
+            raise Blocked()
 
     def append1(self, st, a, elem, elem_t):
         if a.obj is None:
@@ -2057,6 +2229,20 @@ def i_field_uint64(e, st, a, i):
     raise Unsupported('FieldUint64: no field ' + fname)
 
 
+def i_field_string(e, st, a, i):
+    iv, path = a[0], a[1].decode()
+    (g, dt, v), = iv.alts
+    for fname in path.split('.'):
+        _, d = e.under(dt)
+        for k, f in enumerate(d['fields']):
+            if f['name'] == fname:
+                v, dt = v[k], f['type']
+                break
+        else:
+            raise Unsupported('FieldString: no field ' + fname)
+    return v
+
+
 def _builder_buf(e, st, bptr):
     return e.load(st, Ptr([(g, o, p + (1,)) for g, o, p in bptr.alts if o is not None]), '[]byte')
 
@@ -2407,6 +2593,14 @@ def i_re_matchstring(e, st, a, i):
     raise Unsupported('no symbolic model for MatchString of ' + pat)
 
 
+def i_uuid_new(e, st, a, i):
+    z = e.zero(i['type'])
+    if not e.goroutine_park:
+        return z
+    e.uuid_counter += 1
+    return (e.uuid_counter,) + tuple(z[1:])
+
+
 INTRINSICS = {
     'sort.Slice': i_sort_slice,
     'math/rand.Intn': i_rand_intn,
@@ -2426,7 +2620,7 @@ INTRINSICS = {
     'strconv.FormatInt': lambda e, st, a, i: _format_int(e, st, a, True),
     'strconv.FormatUint': lambda e, st, a, i: _format_int(e, st, a, False),
     'github.com/grpc-ecosystem/go-grpc-middleware/util/metautils.ExtractIncoming': lambda e, st, a, i: MapV(((True, None),)),
-    'github.com/google/uuid.New': lambda e, st, a, i: e.zero(i['type']),
+    'github.com/google/uuid.New': i_uuid_new,
     # names of protobuf enum values only flow into log / error text
     '(github.com/openconfig/gnmi/proto/gnmi.GetRequest_DataType).String': lambda e, st, a, i: b'<DataType>',
     '(github.com/openconfig/gnmi/proto/gnmi.Encoding).String': lambda e, st, a, i: b'<Encoding>',
@@ -2460,6 +2654,7 @@ INTRINSICS = {
     '(*sync.Mutex).Lock': lambda e, st, a, i: None,
     '(*sync.Mutex).Unlock': lambda e, st, a, i: None,
     'github.com/onosproject/onos-config/internal/verifrt.FieldUint64': i_field_uint64,
+    'github.com/onosproject/onos-config/internal/verifrt.FieldString': i_field_string,
     '(*strings.Builder).WriteByte': i_builder_writebyte,
     '(*strings.Builder).WriteRune': i_builder_writerune,
     '(*strings.Builder).WriteString': i_builder_writestring,
@@ -2494,10 +2689,13 @@ INTRINSICS = {
     'github.com/onosproject/onos-config/internal/verifrt.NondetBytesLen': i_nondet_bytes_len,
     'github.com/onosproject/onos-config/internal/verifrt.Symbolic': lambda e, st, a, i: True,
     'github.com/onosproject/onos-config/internal/verifrt.NondetInt32': lambda e, st, a, i: nondet_signed(e, st, a, i, 32),
+    'github.com/onosproject/onos-config/internal/verifrt.Yield': lambda e, st, a, i: (e.run_goroutines(st) if e.goroutine_park else None) and None,
     'github.com/onosproject/onos-config/internal/verifrt.Assume': lambda e, st, a, i: setattr(st, 'pc', e.name(sb(And(st.pc, a[0])))),
     'github.com/onosproject/onos-config/internal/verifrt.Assert': lambda e, st, a, i: e.obligations.append((a[1].decode(), sb(And(st.pc, Not(a[0]))))),
     'github.com/onosproject/onos-config/internal/verifrt.Cover': lambda e, st, a, i: (e.covers.append((a[0].decode(), st.pc)), e.snapshots.__setitem__(a[0].decode(), (st.pc, dict(st.heap)))) and None,
+    'verif.identity': lambda e, st, a, i: a[0],
     'context.Background': lambda e, st, a, i: Opaque('ctx'),
+    'golang.org/x/net/context.Background': lambda e, st, a, i: Opaque('ctx'),
     'context.WithTimeout': lambda e, st, a, i: (Opaque('ctx'), FuncV('verif.noop')),
     'verif.noop': lambda e, st, a, i: None,
     'time.Now': lambda e, st, a, i: e.zero(i['type']),
